@@ -30,6 +30,19 @@ class C07(CacheProp):
                    ["get", h1, 10], ["get", h2, 20], ["iter"]]
             cases.append(cachegen.Case("rw%d" % j, "cache", g.header(1000, 8, True, True, 0, bdur), ops,
                                        tags=["profile:sweeprw"]))
+        # the applier's store.Set on a key that is already in the map: two buffered inserts of one key with different TTLs
+        # and, between them, a Del of a colliding key (same hash, other conflict), which makes the accounting forget the
+        # hash while the map keeps the entry - the second insert is then admitted and overwrites the entry in place
+        for j in range(max(2, n // 40)):
+            bdur = rng.choice([1, 5])
+            h = cachegen.mix(800 + j)
+            t1, t2 = rng.sample([0, 10 ** 9, 3 * 10 ** 9, 60 * 10 ** 9], 2)
+            ops = [["set", h, 10, 11, 30, t1], ["del", h, 11], ["set", h, 10, 12, 30, t2], ["tok"], ["tok"], ["tok"],
+                   ["wait"], ["get", h, 10], ["ttl", h, 10], ["dump"], ["tick", 2 * 10 ** 9], ["get", h, 10], ["ttl", h, 10],
+                   ["tick", 5 * 10 ** 9], ["get", h, 10], ["iter"], ["sweep"], ["get", h, 10], ["dump"],
+                   ["tick", 70 * 10 ** 9], ["sweep"], ["get", h, 10], ["iter"], ["dump"]]
+            cases.append(cachegen.Case("cs%d" % j, "cache", g.header(1000, 8, True, True, 0, bdur), ops,
+                                       tags=["profile:collide"]))
         return cases
 
     def oracle(self, case, il):
